@@ -156,6 +156,30 @@ Definition ex_supplied : globals :=
 Example ex_names_distinct : NoDup (map gl_name ex_decls).
 Proof. repeat constructor; cbn; intuition discriminate. Qed.
 
+(* ---- inside the DSL: a global evaluates to the value of the execution's variable set in EVERY state (so in
+   every stanza, block and loop iteration), in both modes, and it cannot be redeclared, hidden or assigned ---- *)
+From TSG Require Import Model.Strict Model.Lazy.
+Theorem global_evaluates_strict : forall t fl glob call fuel le name l v s p,
+  globals_get glob name = Some v ->
+  eval t fl glob call (S fuel) le (EUnscoped name l) s p = Ok (v, s, p).
+Proof. intros t fl glob call fuel le name l v s p H. cbn [eval]. unfold unscoped_get. rewrite H. reflexivity. Qed.
+Theorem global_evaluates_lazy : forall t fl glob call fuel le name l v s p,
+  globals_get glob name = Some v ->
+  leval t fl glob call (S fuel) le (EUnscoped name l) s p = Ok (LValue v, s, p).
+Proof. intros t fl glob call fuel le name l v s p H. cbn [leval]. unfold lunscoped_get. rewrite H. reflexivity. Qed.
+(* `let`/`var`/`for`/comprehension variables and shorthand parameters all go through unscoped_add; `set` through unscoped_set *)
+Theorem global_cannot_be_redeclared_or_hidden : forall glob name v x m s p ls le,
+  globals_get glob name = Some v ->
+  unscoped_add glob name x m s p = Err EDuplicateVariable /\
+  lunscoped_add glob le name (LValue x) m ls p = Err EDuplicateVariable.
+Proof. intros glob name v x m s p ls le H. unfold unscoped_add, lunscoped_add. rewrite H. split; reflexivity. Qed.
+Theorem global_cannot_be_assigned : forall glob name v x s p ls le,
+  globals_get glob name = Some v ->
+  unscoped_set glob name x s p = Err ECannotAssignImmutableVariable /\
+  lunscoped_set glob le name (LValue x) ls p = Err ECannotAssignImmutableVariable.
+Proof. intros glob name v x s p ls le H. unfold unscoped_set, lunscoped_set. rewrite H. split; reflexivity. Qed.
+(* the variable set itself is not part of the interpreter state: no statement can change it *)
+
 (* b is supplied (outer set): its default is NOT used; d is not supplied: its default is, as a string
    (the list check is not applied to defaults); the caller's chain is the tail, untouched *)
 Example ex_ok : run_globals ex_decls ex_supplied = Ok ([(nd, VStr [120])] :: ex_supplied).
